@@ -21,7 +21,7 @@ def txt(toks):
 
 def positions(term):
     # explicit type arguments: of a package-qualified function, a generic union case, a package_info function, a function of the file
-    ps = ["param", "field", "payload", "targ", "targcase", "targext", "targfn", "result", "lamparam"]
+    ps = ["param", "field", "payload", "targ", "targcase", "targext", "targfn", "result", "lamparam", "goeval", "innerparam"]
     if term[0] == "func":
         ps.append("pkginfo")
     return ps
@@ -41,6 +41,10 @@ def render(k, term, toks, pos):
         return "let r%d (x: %s) : %s =\n  x\n\n" % (k, t, t)
     if pos == "lamparam":
         return "let l%d () =\n  fun (x: %s) -> 0\n\n" % (k, t)
+    if pos == "goeval":
+        return "let e%d () =\n  GoEval<%s> \"nil\"\n\n" % (k, t)
+    if pos == "innerparam":
+        return "let i%d () =\n  let inner (x: %s) =\n    0\n  inner\n\n" % (k, t)
     if pos == "targcase":
         return "let t%d () =\n  Fail<%s> ()\n\n" % (k, t)
     if pos == "targext":
@@ -77,8 +81,11 @@ def extract(k, term, pos, info):
     if pos == "result":
         f = funcs.get("r%d" % k)
         return nospace("".join(f["results"])) if f else None
-    if pos == "lamparam":
-        f = funcs.get("l%d" % k)
+    if pos == "goeval":
+        f = funcs.get("e%d" % k)
+        return nospace("".join(f["results"])) if f else None
+    if pos in ("lamparam", "innerparam"):
+        f = funcs.get(("l%d" if pos == "lamparam" else "i%d") % k)
         r = nospace("".join(f["results"])) if f else ""
         return r[len("func("):-len(")int")] if r.startswith("func(") and r.endswith(")int") else None
     if pos in ("targ", "targcase", "targext", "targfn"):
@@ -171,7 +178,7 @@ def run(ctx):
                 "int/string with one deep component per constructor (thorough: every depth <= 1 term in every position, 86 k terms), and 5 hand-picked depth 3 terms; each printed with minimal and with "
                 "redundant parentheses, in each applicable position (parameter annotation, record field, union payload, explicit type "
                 "argument of slice.New / of a generic union case / of a package_info function / of a generic function of the file, "
-                "a result annotation, the parameter of a lambda, package_info signature for function types). distinct = distinct (term, printer, position); non-trivial = "
+                "a result annotation, the parameter of a lambda / of an inner function, the type argument of GoEval, package_info signature for function types). distinct = distinct (term, printer, position); non-trivial = "
                 "depth >= 2 (counted separately in the evidence: depth >= 1)")
     sd = ctx.spec_dir()
     slicecheck.write_cfg(ctx, "FoTypeExprCases_run.cfg", "CONSTANTS\n  Depth2 = TRUE\n  Full2 = %s\n  OutFile = \"type_cases.ndjson\"\nINIT Init\nNEXT Next\n" % ("TRUE" if ctx.tier == "thorough" else "FALSE"))
